@@ -226,7 +226,7 @@ def specs(with_loopy=True) -> dict[str, KindSpec]:
         add("LoopyCall", lc, {"translation_unit": [lc2.translation_unit],
                               "bindings": [constantdict({"a": b4})],
                               "tags": [frozenset({VFooTag()})], "entrypoint": []}, nd=0)
-        add("LoopyCallResult", lc["out"], {"_container": [lc2], "name": []})
+        add("LoopyCallResult", lc["out"], {"_container": [lc2, call_loopy(knl, {"a": b4})], "name": []})
     return out
 
 
